@@ -10,9 +10,60 @@ from . import common as K
 _cache = {}
 
 
+def value_names(fi, valname):
+    """local names that hold the value being validated: the parameter, copies of it, and the command looked up under it"""
+    names = {valname}
+    changed = True
+    while changed:
+        changed = False
+        for n in own_nodes(fi.node):
+            if isinstance(n, ast.Assign) and len(n.targets) == 1 and isinstance(n.targets[0], ast.Name) and n.targets[0].id not in names:
+                v = n.value
+                if isinstance(v, ast.Name) and v.id in names:
+                    names.add(n.targets[0].id)
+                    changed = True
+                elif isinstance(v, ast.Subscript) and isinstance(v.value, ast.Attribute) and v.value.attr == "commands" and isinstance(v.slice, ast.Name) and v.slice.id in names:
+                    names.add(n.targets[0].id)
+                    changed = True
+    return names
+
+
+class _Canon(ast.NodeTransformer):
+    def __init__(self, names, valname):
+        self.names, self.valname = names, valname
+
+    def visit_Name(self, node):
+        if node.id in self.names and node.id != self.valname:
+            return ast.copy_location(ast.Name(id=self.valname, ctx=node.ctx), node)
+        return node
+
+
 def classify(idx, fi, t, valname, selfname):
     """test expression -> (predicate, polarity-when-true)"""
+    import copy
+
+    names = value_names(fi, valname)
     e = t
+    if isinstance(e, ast.Name) and e.id not in names:
+        d_ = K.single_defs(fi).get(e.id)
+        if d_ is not None:
+            e = d_
+    else:
+        e = K.expand(fi, e) if not (isinstance(e, ast.Name)) else e
+    e = _Canon(names, valname).visit(copy.deepcopy(e))
+    neg_wrap = False
+    while isinstance(e, ast.UnaryOp) and isinstance(e.op, ast.Not):
+        neg_wrap = not neg_wrap
+        e = e.operand
+    pred, pol = _classify(idx, fi, e, valname, selfname)
+    if pred is None and isinstance(t, ast.Name):
+        return "var:" + t.id, True
+    if pred is not None and neg_wrap:
+        pol = not pol
+    return pred, pol
+
+
+def _classify(idx, fi, e, valname, selfname):
     s = K.src(e)
     if isinstance(e, ast.Call) and isinstance(e.func, ast.Name) and e.func.id == "isinstance" and len(e.args) == 2 and isinstance(e.args[0], ast.Name) and e.args[0].id == valname:
         q = idx.qualname(fi.module, e.args[1], fi) or ""
@@ -127,7 +178,7 @@ def extract(idx):
                 outcome = q.split(".")[-1]
             if n.kind == "return":
                 v = n.ast.value
-                outcome = "accept" if isinstance(v, ast.Name) and v.id == valname else "return:%s" % K.src(v)
+                outcome = "accept" if isinstance(v, ast.Name) and v.id in value_names(fi, valname) else "return:%s" % K.src(v)
             prev = n
         if skip or not feasible:
             continue
@@ -218,10 +269,12 @@ def check(ctx, idx, A):
             nm = K.src(n.exc.func).split(".")[-1]
             a0 = K.src(n.exc.args[0]) if n.exc.args else ""
             valname = fi.node.args.args[1].arg
+            vnames = value_names(fi, valname)
+            a0n = n.exc.args[0] if n.exc.args else None
             if nm in ("ResultNotFuzzy", "ResultIsFuzzy", "ResultTypeNotValid"):
-                ok = a0 == "%s.result_name" % valname
+                ok = isinstance(a0n, ast.Attribute) and a0n.attr == "result_name" and isinstance(a0n.value, ast.Name) and a0n.value.id in vnames
             elif nm in ("ResultDoesNotExist", "ParameterNotValid"):
-                ok = a0 == valname
+                ok = isinstance(a0n, ast.Name) and a0n.id in vnames
             else:
                 continue
             ctx.ob("C12.f", "%s::payload(%s)" % (fi.key, nm), K.rel(fi), n.lineno, ok, "names the offending %s" % ("result" if "result_name" in a0 else "value") if ok else "%s is given `%s`, not the offending reference" % (nm, a0))
